@@ -15,6 +15,8 @@
 //!  * `expiry0`     lock timeout 0 s: after 5 ms the second writer must go through.
 //!  * `expiry1`     lock timeout 1 s: refusal observed at once (counted, not required), success
 //!                  required after 1.3 s.
+//!  * `retouch`     a transaction modifies a row again after its lock (timeout 1 s) expired; another
+//!                  transaction arriving right afterwards must be refused.
 //!  * `budget`      one transaction on an engine whose ordered-index key budget (max_btree_entries) is
 //!                  1..6: some of its statements are refused half-way with ResultTooLarge; after the
 //!                  rollback every read must be what it was before begin_transaction.
@@ -23,6 +25,7 @@ mod budget;
 mod expiry;
 mod gen;
 mod model;
+mod retouch;
 mod run;
 
 use nv_engine::{main_for, PropDef, PropPart, Tier};
@@ -56,6 +59,8 @@ fn main() {
                 .shrink_iters(8)
                 .boxed(),
             PropPart::new("budget", 20_000, 400_000, |_| budget::strategy(), budget::check).boxed(),
+            // each case sleeps 1.3 s: two per worker thread in the quick tier
+            PropPart::new("retouch", 32, 640, |_| retouch::strategy(), retouch::check).shrink_iters(4).boxed(),
         ],
         children: vec![],
     });
